@@ -9,3 +9,7 @@ import MCHap.Properties.C03
 #print axioms MCHap.C03.acp_sum_ploidy
 #print axioms MCHap.C03.afp_sum_one
 #print axioms MCHap.C03.gpm_le_spm_le_one
+#print axioms MCHap.C03.lik_nonneg
+#print axioms MCHap.C03.callPrior_nonneg
+#print axioms MCHap.C03.posterior_nonneg
+#print axioms MCHap.C03.gpm_le_spm_le_one_of_inputs
